@@ -148,7 +148,11 @@ impl Run {
     pub fn kill_group(&self) {
         if self.pgid > 1 {
             unsafe {
-                libc::kill(-self.pgid, libc::SIGKILL);
+                // only when the group still has members: once it is empty its id can be given to an unrelated
+                // process (pid_max is 32768 here and many checks run side by side)
+                if libc::kill(-self.pgid, 0) == 0 {
+                    libc::kill(-self.pgid, libc::SIGKILL);
+                }
             }
         }
     }
